@@ -34,6 +34,7 @@ type R struct {
 	viol       map[string]*Violation
 	distinct   map[string]map[uint64]struct{}
 	export     map[string]bool
+	byConstruction map[string]int64
 	Assume     []string
 	Caps       []string
 	Notes      map[string]any
@@ -186,6 +187,17 @@ func (r *R) ExportSet(class string) {
 	r.mu.Unlock()
 }
 
+// AddDistinct counts n cases that are distinct by construction (enumerated without repetition
+// and partitioned over the shards), without storing them.
+func (r *R) AddDistinct(class string, n int64) {
+	r.mu.Lock()
+	if r.byConstruction == nil {
+		r.byConstruction = map[string]int64{}
+	}
+	r.byConstruction[class] += n
+	r.mu.Unlock()
+}
+
 func (r *R) DistinctCount(class string) int {
 	r.mu.Lock()
 	defer r.mu.Unlock()
@@ -248,6 +260,9 @@ func (r *R) Write() {
 			continue
 		}
 		o.Distinct[k] = len(m)
+	}
+	for k, n := range r.byConstruction {
+		o.Distinct[k] += int(n)
 	}
 	keys := make([]string, 0, len(r.viol))
 	for k := range r.viol {
